@@ -3,6 +3,7 @@ package main
 // c01.go — C01: dialogue flow (control skeleton of the interpreter and of the tree builder).
 
 import (
+	"regexp"
 	"go/ast"
 	"go/token"
 	"go/types"
@@ -35,13 +36,14 @@ func checkC01(c *Ctx) {
 	m := w.runner()
 	c.rule("C01.R1", "every pointer field of tree.Statement has exactly one dispatch arm in Next testing that field; every tree.Statement literal sets exactly one field", 9)
 	c.rule("C01.R2", "if-chain: clauses visited by a range over Clauses; the pushed body belongs to the clause whose condition was evaluated and is pushed only where that condition is true; no second push and no further iteration after a push; else-clauses carry the constant-true condition", 4)
-	c.rule("C01.R3", "jump: on success CLEAR then exactly one PUSH of the found node's statements and currentNode <- that node's title, under the ok of FindNode on the evaluated destination; on failure no effect at all", 4)
+	c.rule("C01.R3", "jump: on success CLEAR then exactly one PUSH of the found node's statements and currentNode <- that node's title, under the ok of FindNode on the evaluated destination; on failure no effect at all", 3)
 	c.rule("C01.R4", "the choice argument is used only as Options[choice] under the waiting predicate and as the argument of recursive Next calls; the pushed body is Options[choice].Statements, pushed without clearing or popping the continuation; the consumed choice is cleared (C12.R2)", 4)
 	c.rule("C01.R5", "the start queue and the start node name both come from Nodes[0] of the dialogue parsed from the readers; FromReaders appends each reader's nodes after the accumulated ones, in a range over the readers", 4)
 	c.rule("C01.R6", "tree builder: for every grammar rule, pushes on each listener stack in EnterX equal pops in ExitX plus self-popping callbacks; every callback field set in EnterX is reset in ExitX or by the callback itself", 30)
 	c.rule("C01.R7", "statementQueue: the statement handed out is statements[pointer] read before a single +1 of pointer; no change when exhausted; the index is guarded against len", 3)
 	c.rule("C01.R8", "the continuation stack is pushed only in the constructor, the choice block, the if executor, the jump executor and RestoreAt; popped only in Next when the top queue is exhausted; elements name the current node", 8)
 	c.rule("C01.R9", "outside internal/tree no store goes to a field, slice element or map of an object of an internal/tree type unless the object was allocated in the same function", 1)
+	c.rule("C01.R10", "tree builder re-entrancy: a listener field that is not a stack, is written by the handlers of a self-nesting grammar rule and is read later (in an Exit handler or a callback) would be overwritten by a nested occurrence of the same rule", 8)
 	if !m.ok(c, "C01") {
 		return
 	}
@@ -54,6 +56,7 @@ func checkC01(c *Ctx) {
 	c01R7(c, m)
 	c01R8(c, m)
 	c01R9(c)
+	c01R10(c)
 }
 
 // ---------- R1 ----------
@@ -219,7 +222,8 @@ func c01R2(c *Ctx, m *runnerModel) {
 	if pushes == 0 {
 		c.ob("C01.R2", f.Name+"/push", w.Pos(f.Decl.Pos()), false, "the if executor never pushes a clause body")
 	}
-	// automaton: PUSH then (PUSH | BACKEDGE) is bad
+	// automaton: once a clause condition was true the chain is over (no further iteration), and a body is pushed
+	// only after that, at most once
 	r := evtRule{
 		start: "",
 		prim: func(n ast.Node) []string {
@@ -235,33 +239,49 @@ func c01R2(c *Ctx, m *runnerModel) {
 			}
 			return nil
 		},
+		edge: func(e edgeInfo) []string {
+			// the true edge of the dereferenced boolean of the evaluated clause condition
+			if se, ok := unparen(e.Cond).(*ast.StarExpr); ok && e.Branch {
+				s := x.str(se.X)
+				if strings.HasSuffix(s, "#0.Boolean") && strings.Contains(s, clause+".Condition") {
+					return []string{"TRUE"}
+				}
+			}
+			return nil
+		},
 		step: func(st, ev string) string {
 			switch ev {
-			case "PUSH":
+			case "TRUE":
 				if st == "" {
-					return "pushed"
+					return "decided"
 				}
-				return "twice"
+			case "PUSH":
+				switch st {
+				case "decided":
+					return "pushed"
+				case "pushed":
+					return "twice"
+				}
 			case "BACKEDGE":
-				if st == "pushed" {
+				if st == "decided" || st == "pushed" {
 					return "continued"
 				}
 			}
 			return ""
 		},
 		bad: func(st, ev string) string {
-			switch st {
-			case "twice":
+			switch {
+			case st == "twice" && ev == "PUSH":
 				return "a second clause body can be pushed on one path (only the first true clause may run)"
-			case "continued":
-				return "the clause loop continues after a body was pushed (later clauses would be evaluated and possibly run)"
+			case st == "continued" && ev == "BACKEDGE":
+				return "the clause loop continues after a clause's condition was true: a later clause could be evaluated and run although an earlier one was the first true clause"
 			}
 			return ""
 		},
 	}
 	fs := runEVT(w, f, r)
 	if len(fs) == 0 {
-		c.ob("C01.R2", f.Name+"/at-most-one-body", w.Pos(f.Decl.Pos()), true, "no path pushes twice or iterates after a push")
+		c.ob("C01.R2", f.Name+"/at-most-one-body", w.Pos(f.Decl.Pos()), true, "no path iterates after a clause condition was true, and at most one body is pushed")
 	}
 	for i, fd := range fs {
 		c.ob("C01.R2", f.Name+"/at-most-one-body#"+itoa(i+1), w.Pos(fd.pos), false, fd.msg)
@@ -1254,5 +1274,199 @@ func c01R9(c *Ctx) {
 	}
 	if bad == 0 {
 		c.ob("C01.R9", "module/no-tree-write", "-", true, "no store outside internal/tree reaches an object of an internal/tree type ("+itoa(n)+" local initialisations)")
+	}
+}
+
+// ---------- R10 ----------
+
+// selfNesting computes which parser rules can (transitively) contain themselves.
+func (g *grammarInfo) selfNesting() map[string]bool {
+	refs := map[string]map[string]bool{}
+	idRe := regexp.MustCompile(`[a-z_][A-Za-z_0-9]*`)
+	for name, body := range g.parserRules {
+		refs[name] = map[string]bool{}
+		// drop quoted literals and labels
+		clean := regexp.MustCompile(`'(?:[^'\\]|\\.)*'|#\s*[A-Za-z_0-9]+|[A-Za-z_0-9]+\s*=`).ReplaceAllString(body, " ")
+		for _, id := range idRe.FindAllString(clean, -1) {
+			if _, ok := g.parserRules[id]; ok {
+				refs[name][id] = true
+			}
+		}
+	}
+	out := map[string]bool{}
+	for name := range g.parserRules {
+		seen := map[string]bool{}
+		var visit func(r string) bool
+		visit = func(r string) bool {
+			for t := range refs[r] {
+				if t == name {
+					return true
+				}
+				if !seen[t] {
+					seen[t] = true
+					if visit(t) {
+						return true
+					}
+				}
+			}
+			return false
+		}
+		out[name] = visit(name)
+	}
+	return out
+}
+
+// ruleOfHandler maps a listener method name (EnterX / ExitX) to the grammar rule it belongs to.
+func (g *grammarInfo) ruleOfHandler(method string) (string, bool) {
+	name := strings.TrimPrefix(strings.TrimPrefix(method, "Enter"), "Exit")
+	if name == method || name == "" {
+		return "", false
+	}
+	lower := strings.ToLower(name[:1]) + name[1:]
+	if _, ok := g.parserRules[lower]; ok {
+		return lower, true
+	}
+	for rule := range g.parserRules {
+		for _, l := range g.labels(rule) {
+			if l == lower {
+				return rule, true
+			}
+		}
+	}
+	return "", false
+}
+
+func c01R10(c *Ctx) {
+	w := c.W
+	g := w.grammar()
+	if len(g.problems) > 0 {
+		c.undecided("C01.R10", "grammar: "+strings.Join(g.problems, "; "))
+		return
+	}
+	nesting := g.selfNesting()
+	if !nesting["statement"] || !nesting["expression"] || nesting["node"] {
+		c.undecided("C01.R10", "the grammar's nesting relation was not read correctly (statement and expression must be self-nesting, node must not)")
+		return
+	}
+	tp := w.Pkg("internal/tree")
+	info := tp.TypesInfo
+	pl := namedType(tp, "parserListener")
+	if pl == nil {
+		c.undecided("C01.R10", "type parserListener not found")
+		return
+	}
+	st := pl.Underlying().(*types.Struct)
+	var scalars []*types.Var
+	for i := 0; i < st.NumFields(); i++ {
+		f := st.Field(i)
+		if f.Embedded() || strings.HasPrefix(typeStr(f.Type()), "*container.Stack[") {
+			continue
+		}
+		scalars = append(scalars, f)
+	}
+	// handlers and the helper methods they call, with the grammar rule they serve
+	type site struct {
+		rule    string
+		handler string
+		held    bool // in an Exit handler or inside a function literal: runs after children were walked
+		pos     token.Pos
+	}
+	writes, reads := map[*types.Var][]site{}, map[*types.Var][]site{}
+	var scan func(f *Func, rule, handler string, isExit bool, depth int)
+	scan = func(f *Func, rule, handler string, isExit bool, depth int) {
+		if f == nil || f.Body == nil {
+			return
+		}
+		var walk func(n ast.Node, inLit bool)
+		walk = func(n ast.Node, inLit bool) {
+			ast.Inspect(n, func(x ast.Node) bool {
+				switch x := x.(type) {
+				case *ast.FuncLit:
+					if x != n {
+						walk(x.Body, true)
+						return false
+					}
+				case *ast.AssignStmt:
+					for _, l := range x.Lhs {
+						if se, ok := unparen(l).(*ast.SelectorExpr); ok {
+							if fld := lastField(info, se); fld != nil {
+								if _, direct := unparen(se.X).(*ast.Ident); direct {
+									writes[fld] = append(writes[fld], site{rule, handler, isExit || inLit, x.Pos()})
+								}
+							}
+						}
+					}
+				case *ast.SelectorExpr:
+					if sel, ok := info.Selections[x]; ok && sel.Kind() == types.FieldVal {
+						fld := sel.Obj().(*types.Var)
+						if _, direct := unparen(x.X).(*ast.Ident); direct {
+							// a read unless this selector is itself the assigned left-hand side
+							isLHS := false
+							if as, ok := w.parent[x].(*ast.AssignStmt); ok {
+								for _, l := range as.Lhs {
+									if unparen(l) == ast.Expr(x) {
+										isLHS = true
+									}
+								}
+							}
+							if !isLHS {
+								reads[fld] = append(reads[fld], site{rule, handler, isExit || inLit, x.Pos()})
+							}
+						}
+					}
+				case *ast.CallExpr:
+					if callee := calleeOf(info, x); callee != nil && depth < 2 {
+						if h := w.byObj[callee]; h != nil && h.Pkg == tp && h.Decl != nil && h.Decl.Recv != nil && h != f && typeStr(h.Sig().Recv().Type()) == "*tree.parserListener" {
+							if _, isHandler := g.ruleOfHandler(h.Decl.Name.Name); !isHandler {
+								scan(h, rule, handler, isExit || inLit, depth+1)
+							}
+						}
+					}
+				}
+				return true
+			})
+		}
+		walk(f.Body, false)
+	}
+	handlers := 0
+	for _, f := range w.FuncsIn(tp) {
+		if f.Decl == nil || f.Decl.Recv == nil || typeStr(f.Sig().Recv().Type()) != "*tree.parserListener" {
+			continue
+		}
+		rule, ok := g.ruleOfHandler(f.Decl.Name.Name)
+		if !ok {
+			continue
+		}
+		handlers++
+		scan(f, rule, f.Decl.Name.Name, strings.HasPrefix(f.Decl.Name.Name, "Exit"), 0)
+	}
+	if handlers < 40 {
+		c.undecided("C01.R10", "only "+itoa(handlers)+" listener handlers mapped to grammar rules")
+		return
+	}
+	for _, fld := range scalars {
+		var nestedWriters []site
+		for _, wr := range writes[fld] {
+			if nesting[wr.rule] {
+				nestedWriters = append(nestedWriters, wr)
+			}
+		}
+		var held []site
+		for _, rd := range reads[fld] {
+			if rd.held {
+				held = append(held, rd)
+			}
+		}
+		key := "parserListener." + fld.Name()
+		switch {
+		case len(writes[fld]) == 0:
+			continue
+		case len(nestedWriters) == 0:
+			c.obN("C01.R10", key, w.Pos(writes[fld][0].pos), true, "written only by handlers of rules that cannot nest in themselves", false)
+		case len(held) == 0:
+			c.ob("C01.R10", key, w.Pos(nestedWriters[0].pos), true, "written under the self-nesting rule '"+nestedWriters[0].rule+"' but only handed to the next Enter handler, never read after children were walked")
+		default:
+			c.ob("C01.R10", key, w.Pos(nestedWriters[0].pos), false, "written by "+nestedWriters[0].handler+" (rule '"+nestedWriters[0].rule+"' can contain itself) and read later at "+w.Pos(held[0].pos)+" ("+held[0].handler+", after children were walked): a nested occurrence overwrites it, so the outer construct is built from the inner one's state; per-construct state of a re-entrant rule must live in a closure variable or on a stack")
+		}
 	}
 }
